@@ -63,8 +63,15 @@ LastUses ==
   \cup { <<NRoot, NKey(KB), NIdx(<<Sub1(<<NLast>>), Sub1(e), Sub1(<<NLast>>)>>)>> : e \in BoundExprs }
 (* @ rebound by a nested filter and used again afterwards *)
 NestedF(inner) == <<NCur, NKey(KA), NFilter(inner)>>
+OrUses ==
+  { <<NRoot, NKey(KB), NAnyArr, NFilter(NBin("or", <<l>>, <<NBin("eq", At(<<NKey(KB)>>), Lit(1))>>))>>
+      : l \in { NUn("exists", NestedF(NBin("gt", At(<<>>), Lit(1)))), NUn("exists", NestedF(NBin("gt", At(<<>>), <<NStr(KX)>>))),
+                NUn("exists", NestedF(NBin("gt", At(<<NKey(KB)>>), Lit(1)))), NBin("gt", NestedF(NBin("gt", At(<<>>), Lit(9))), Lit(0)),
+                NUn("not", <<NUn("exists", NestedF(NBin("eq", At(<<>>), Lit(2))))>>) } }
+  \cup { <<NRoot, NKey(KB), NAnyArr, NFilter(NBin("and", <<NUn("not", <<NUn("exists", NestedF(i))>>)>>, <<NBin("eq", At(<<NKey(KB)>>), Lit(1))>>))>>
+      : i \in {NBin("gt", At(<<>>), Lit(9)), NBin("gt", At(<<>>), <<NStr(KX)>>), NBin("eq", At(<<>>), Lit(2))} }
 CurUses ==
-  { <<NRoot, NKey(KB), NAnyArr, NFilter(NBin("and", <<NBin("gt", NestedF(i), Lit(0))>>, <<NBin("eq", At(<<NKey(KB)>>), Lit(1))>>))>>
+  OrUses \cup { <<NRoot, NKey(KB), NAnyArr, NFilter(NBin("and", <<NBin("gt", NestedF(i), Lit(0))>>, <<NBin("eq", At(<<NKey(KB)>>), Lit(1))>>))>>
       : i \in {NBin("gt", At(<<>>), Lit(1)), NBin("gt", At(<<>>), Lit(9)), NBin("gt", At(<<>>), <<NStr(KX)>>),
                NUn("exists", At(<<NKey(KX)>>))} }
   \cup { <<NRoot, NKey(KB), NAnyArr, NFilter(NBin("and", <<NUn("exists", NestedF(NBin("gt", At(<<>>), Lit(1))))>>, <<NBin("eq", At(<<NKey(KB)>>), Lit(1))>>))>>,
